@@ -231,6 +231,40 @@ def component_api(ctx, c):
                    {'c': c.hex()})
 
 
+TYPED_CTORS = ((0x32, 'from_segment', 'seg'), (0x34, 'from_byte_offset', 'off'), (0x36, 'from_version', 'v'), (0x38, 'from_timestamp', 't'), (0x3A, 'from_sequence_num', 'seq'))
+
+
+def check_typed_constructors(ctx, rng):
+    """The convenience constructors for typed numbers are one more input form: from_segment(n) etc., from_number(n, type), the
+    shorthand URI 'seg=<n>' and the reference encoding (shortest of 1/2/4/8 octets) are the same component, for small and large n."""
+    nums = [0, 1, 7, 252, 253, 255, 256, 65535, 65536, 2**31, 2**32 - 1, 2**32, 2**40, 1700000000000, 1700000000000000, 2**63, 2**64 - 1]
+    nums += [rng.randrange(1 << rng.choice([8, 16, 24, 32, 48, 64])) for _ in range(ctx.n(40, 4000))]
+    for n in nums:
+        for t, ctor, short in TYPED_CTORS:
+            ref = rc.comp(t, rc.enc_nni(n))
+            w = {'number': n, 'type': t, 'constructor': ctor}
+            try:
+                forms = {ctor: bytes(getattr(Component, ctor)(n)), 'from_number': bytes(Component.from_number(n, t)), 'from_str(shorthand)': bytes(Component.from_str(f'{short}={n}')),
+                         'from_str(canonical)': bytes(Component.from_str(rc.comp_to_canonical_uri(ref)))}
+            except Exception as e:   # noqa
+                ctx.report(f'typed-constructor-raises:{type(e).__name__}@{raising_site(e)[0]}', f'constructing a typed number component raised {e!r}', w)
+                continue
+            ctx.event('typed-number-constructors-compared')
+            ctx.case(('typed-ctor', t, len(rc.enc_nni(n))), nontrivial=True)
+            for k_, v_ in forms.items():
+                if v_ != ref:
+                    ctx.report(f'typed-constructor-differs:{k_ if not k_.startswith("from_str") else "from_str"}', f'{k_} gives {v_.hex()}, the component of that number is {ref.hex()}', dict(w, form=k_))
+            try:
+                back = Component.to_number(getattr(Component, ctor)(n))
+                if back != n:
+                    ctx.report('typed-constructor-number-differs', f'to_number({ctor}({n})) = {back}', w)
+                nm = Name.to_str([getattr(Component, ctor)(n)])
+                if nm != '/' + rc.comp_to_uri(ref) or [bytes(c) for c in Name.from_str(nm)] != [ref]:
+                    ctx.report('typed-constructor-uri-differs', f'the name of {ctor}({n}) prints as {nm!r} / does not read back', w)
+            except Exception as e:   # noqa
+                ctx.report(f'typed-constructor-raises:{type(e).__name__}@{raising_site(e)[0]}', f'converting a constructed component raised {e!r}', w)
+
+
 def scribble(x):
     """Edit in place whatever mutable byte strings a conversion handed out."""
     n = 0
@@ -309,6 +343,7 @@ def run(ctx):
     ctx.rule = RULE
     rng = ctx.rng
     check_raw_text(ctx)
+    check_typed_constructors(ctx, rng)
     pool = []
     n_names = ctx.n(12000, 1600000)
     # fixed boundary corpus
